@@ -548,7 +548,7 @@ static err_t s_bpkiPU(int var)
 static err_t s_bpkiSW(int var)
 {
 	err_t code; material(); sec_reset(); out_reset();
-	memcpy(BUF3, K32, 33); BUF3[0] = 3;
+	memcpy(BUF3 + 1, K32, 32); BUF3[0] = 3;
 	sec_add(BUF3 + 1, 32, "share"); sec_add(DATA + 300, 24, "password");
 	out_add(BUF1, 256);
 	if (var == 0) { g_expect = ERR_OK; return RUN("bpkiShareWrap", bpkiShareWrap(BUF1, &EPKI_LEN, BUF3, 33, DATA + 300, 24, IV16, 10000)); }
@@ -557,7 +557,7 @@ static err_t s_bpkiSW(int var)
 static err_t s_bpkiSU(int var)
 {
 	err_t code; size_t n = 0; material(); sec_reset(); out_reset();
-	memcpy(BUF3, K32, 33); BUF3[0] = 3;
+	memcpy(BUF3 + 1, K32, 32); BUF3[0] = 3;
 	bpkiShareWrap(BUF2, &EPKI_LEN, BUF3, 33, DATA + 300, 24, IV16, 10000);
 	sec_add(BUF3 + 1, 32, "share"); sec_add(DATA + 300, 24, "password");
 	out_add(BUF1, 64); g_outdoc = 0;
